@@ -35,6 +35,9 @@ type Driver[I any, O any] struct {
 	Workers    int
 	CaseTimout time.Duration
 	Extra      func() map[string]any
+	// Explicit (optional) rewrites the input recorded in the case JSON (replay files,
+	// shrinking), e.g. to replace "seed" by the explicit actions that were executed.
+	Explicit func(in I, obs *O) I
 }
 
 type childOut[O any] struct {
@@ -218,7 +221,11 @@ func (d Driver[I, O]) Main(prop string, args []string) {
 		c := d.Render(inputs[i].Input, res[i].Obs, res[i].Panic)
 		c.Stream = inputs[i].Stream
 		// every case JSON carries its input so that a replay file can re-run it
-		c.JSON = map[string]any{"input": inputs[i].Input, "observed": c.JSON, "stream": c.Stream}
+		var recorded any = inputs[i].Input
+		if d.Explicit != nil {
+			recorded = d.Explicit(inputs[i].Input, res[i].Obs)
+		}
+		c.JSON = map[string]any{"input": recorded, "observed": c.JSON, "stream": c.Stream}
 		if res[i].Panic != "" {
 			direct = append(direct, DirectFinding{Case: i, What: "panic/crash in implementation", Detail: res[i].Panic})
 		}
